@@ -79,3 +79,30 @@ Proof.
   - assert (0 < Z.of_nat fuel) by lia. lia.
   - lia.
 Qed.
+
+(* the same on the narrow contract, without the decidable premise: finite f64
+   coordinates (canonical binary64 values) whose binary32 images are finite *)
+From Coupe Require Import Proofs.RcbBox.
+
+Lemma range_coords_ok pts : coords_in_f32_range pts -> coords_ok pts.
+Proof.
+  unfold coords_in_f32_range, coords_ok, to32. intros H. rewrite Forall_forall in *. intros p32 Hp.
+  apply in_map_iff in Hp. destruct Hp as (p & <- & Hp). specialize (H p Hp).
+  rewrite Forall_forall in *. intros c32 Hc. apply in_map_iff in Hc. destruct Hc as (c & <- & Hc).
+  destruct (H c Hc) as (_ & _ & F). unfold f32_valid. destruct (f64_to_f32 c); try discriminate; reflexivity.
+Qed.
+
+Theorem rcb_total32_contract : forall v fuel sched D k tol pts ws p0,
+  v_old v = false -> v_safe_mid v = true ->
+  (0 < D)%nat -> length ws = length p0 -> length pts = length p0 ->
+  Forall (fun p => length p = D) pts -> coords_in_f32_range pts ->
+  Z.of_nat fuel > 2 ^ 33 ->
+  exists p, rcb v fuel sched D k tol pts ws p0 = Ok p.
+Proof.
+  intros v fuel sched D k tol pts ws p0 Hold Hsafe HD E1 E2 HDl Hr Hfuel.
+  destruct pts as [|pt0 pts'] eqn:Ep.
+  - unfold rcb. rewrite E1, E2, !Nat.eqb_refl. cbn [negb]. eexists; reflexivity.
+  - rewrite <- Ep in *.
+    apply rcb_total32; try assumption; [apply range_coords_ok, Hr|].
+    apply box_ok32_holds; try assumption; [rewrite Ep; discriminate|lia].
+Qed.
